@@ -134,6 +134,8 @@ def opt(values, k, spec):
     """Optimal value of the objective over all partitions of values into k bins."""
     if k == 2 and len(values) > 10:
         return opt_two_way(values, spec)
+    if k == 3 and len(values) > 10 and spec in ("minmax", "maxmin", "diff"):
+        return opt_three_way(values, spec)
     vecs = sum_vectors(values, k)
     vals = [objective_value(spec, s)[0] for s in vecs]
     sense = objective_value(spec, next(iter(vecs)))[1]
